@@ -171,7 +171,8 @@ def make_sliding(spec):
 def make_prox(spec):
     from ribs.archives import ProximityArchive
     return ProximityArchive(solution_dim=1, measure_dim=spec["mdim"], k_neighbors=spec["k"], novelty_threshold=spec["thr"],
-                            initial_capacity=spec.get("cap", 4), dtype=DT[spec["dtype"]], seed=1)
+                            initial_capacity=spec.get("cap", 4), dtype=DT[spec["dtype"]], seed=1,
+                            local_competition=bool(spec.get("lc", False)))
 
 
 # ---------------------------------------------------------------------------------------------
